@@ -76,13 +76,14 @@ def stored : Lang → Int → Int
   | .cpp, d => d % 4294967296
 
 /-- `stored == literal` as the compiler evaluates it (LP64; |numbers| < 2^63).  C: two decimal numerals of
-type `int`/`long`.  C++: `std::uint32_t` against a literal that is `int` when it fits (then converted to
-`unsigned`, i.e. reduced modulo 2^32) and `long` otherwise. -/
+type `int`/`long`.  C++: `std::uint32_t` against a numeral that is `int` when its literal fits (then converted to
+`unsigned`, i.e. reduced modulo 2^32) and `long` otherwise (`-2147483648` is unary minus on the `long` literal
+`2147483648`).  Closed form of `Model/OptionExpr.lean :: evalAssert` (theorem `C17_cmp_is_the_emitted_expression`). -/
 def cmp (lang : Lang) (d v : Int) : Bool :=
   match lang with
   | .c => stored .c d == v
   | .cpp =>
-    if -2147483648 ≤ v ∧ v < 2147483648 then stored .cpp d == v % 4294967296 else stored .cpp d == v
+    if -2147483648 < v ∧ v < 2147483648 then stored .cpp d == v % 4294967296 else stored .cpp d == v
 
 /-- A compiler diagnostic produced by the guard block. -/
 inductive Diag where
